@@ -23,6 +23,7 @@ def applyEv (st : ASt) (ev : String) : Except String ASt :=
   match ev.toList.head?, num with
   | some 'a', some k =>
     keep ((if s.st k == 0 then tryAct s (Act.connect k) ev else pure s) >>= fun s => tryAct s (Act.accept k) ev)
+  | some 'F', _ => keep (tryAct s Act.acceptFail ev)      -- accept() failed: possible only at the top of the loop
   | some 'n', _ => keep (tryAct s Act.count ev)
   | some 'b', some k => keep (tryAct s (Act.hBegin k) ev)
   | some 'e', some k => keep (tryAct s (Act.hEnd k) ev)
